@@ -4,7 +4,9 @@
 // (column, value bytes, repetition level, definition level) sequences of every
 // row must be identical on all of them, equal to the model's `shred`
 // (Dremel/Model.v) and re-assemble to the value (Go: Schema.Reconstruct,
-// model: `asm`).  A second part sweeps null / non-null run patterns through
+// model: `asm`).  Every case is written a second time from reused, poisoned
+// caller memory (reuse.go) and no path may write into the values it is given.
+// A second part sweeps null / non-null run patterns through
 // the 64-rows-at-a-time bitmap scanner of the typed path (Dremel/NullRuns.v).
 package main
 
@@ -43,7 +45,7 @@ func main() { core.Main("C03", runC03, replayC03) }
 // catalogue entries
 // ---------------------------------------------------------------------------
 
-const numPaths = 14
+const numPaths = 15
 
 // paths whose rows come back in reverse order (the buffer is reversed through Swap before it is read)
 var reversedPath = [numPaths]bool{9: true, 10: true}
@@ -63,12 +65,14 @@ var pathNames = [numPaths]string{
 	"12:GenericWriter[*T].Write",
 	"13:GenericBuffer[*T].Write",
 	"14:GenericBuffer[any].Write",
+	"15:RowBuffer[T].Write read column by column (pages sliced / cloned, 1..3 values at a time)",
 }
 
 type pathResult struct {
 	rows    []parquet.Row
 	err     string // error or panic text
 	skipped bool   // the path was switched off after it hung
+	mutated string // the path changed the batch it was given (the caller's memory): what changed
 }
 
 type cat struct {
@@ -89,7 +93,7 @@ type cat struct {
 	mschema   string   // schema in the model's syntax
 	coqSchema string   // the same as a Coq term
 	maxLevels []string // "r:d" per leaf, from the library
-	exec      func(rows reflect.Value, split []int) [numPaths]pathResult
+	exec      func(rows, pristine reflect.Value, split []int) [numPaths]pathResult
 	execR     func(rows reflect.Value, split []int) [numReuse]pathResult // the same batches from reused caller memory (reuse.go)
 	recon     func(row parquet.Row) (reflect.Value, error)
 }
@@ -141,8 +145,8 @@ func mkx[T any](name string, schema *parquet.Schema, opts ...catOpt) (c *cat) {
 		l, _ := c.schema.Lookup(p...)
 		c.maxLevels = append(c.maxLevels, fmt.Sprintf("%d:%d", l.MaxRepetitionLevel, l.MaxDefinitionLevel))
 	}
-	c.exec = func(rows reflect.Value, split []int) [numPaths]pathResult {
-		return execPaths[T](c, rows.Interface().([]T), split)
+	c.exec = func(rows, pristine reflect.Value, split []int) [numPaths]pathResult {
+		return execPaths[T](c, rows.Interface().([]T), pristine.Interface().([]T), split)
 	}
 	c.execR = func(rows reflect.Value, split []int) [numReuse]pathResult {
 		return execReuse[T](c, rows.Interface().([]T), split)
@@ -288,7 +292,10 @@ func batches(n int, split []int) [][2]int {
 	return out
 }
 
-func execPaths[T any](ct *cat, rows []T, split []int) (res [numPaths]pathResult) {
+// execPaths hands rows to every path; pristine is a deep copy of rows that the
+// library never sees: after each path the batch is compared with it - a path
+// must not write into the caller's values - and restored from it.
+func execPaths[T any](ct *cat, rows, pristine []T, split []int) (res [numPaths]pathResult) {
 	schema := ct.schema
 	n := len(rows)
 	bs := batches(n, split)
@@ -298,7 +305,19 @@ func execPaths[T any](ct *cat, rows []T, split []int) (res [numPaths]pathResult)
 		wopts = []parquet.WriterOption{schema}
 		ropts = []parquet.RowGroupOption{schema}
 	}
-	run := func(p int, f func() ([]parquet.Row, error)) { res[p] = guardPath(p, f) }
+	run := func(p int, f func() ([]parquet.Row, error)) {
+		res[p] = guardPath(p, f)
+		if !reflect.DeepEqual(rows, pristine) {
+			for i := range rows {
+				if !reflect.DeepEqual(rows[i], pristine[i]) {
+					if res[p].mutated == "" {
+						res[p].mutated = fmt.Sprintf("row %d was %s and is %s after the call", i, rowJSON(ct, &pristine[i]), rowJSON(ct, &rows[i]))
+					}
+					rows[i] = deepCopy(reflect.ValueOf(&pristine[i]).Elem()).Interface().(T)
+				}
+			}
+		}
+	}
 	// 1: Schema.Deconstruct
 	run(0, func() ([]parquet.Row, error) {
 		out := make([]parquet.Row, n)
@@ -534,7 +553,111 @@ func execPaths[T any](ct *cat, rows []T, split []int) (res [numPaths]pathResult)
 		}
 		return readAll(buf.Rows())
 	})
+	// 15: RowBuffer, observed column-wise: the page of every column chunk is
+	// cut in two with Slice, every other part cloned, and read with value
+	// buffers of 1, 2 or 3 values; the level arrays of the parts must be those of
+	// the values; the rows are put together again from the column streams
+	run(14, func() ([]parquet.Row, error) {
+		buf := parquet.NewRowBuffer[T](ropts...)
+		for _, b := range bs {
+			if k, err := buf.Write(rows[b[0]:b[1]]); err != nil || k != b[1]-b[0] {
+				return nil, fmt.Errorf("Write returned %d, %v", k, err)
+			}
+		}
+		return readColumnwise(schema, buf, n)
+	})
 	return res
+}
+
+func readValues(r parquet.ValueReader, size int) ([]parquet.Value, error) {
+	var out []parquet.Value
+	buf := make([]parquet.Value, size)
+	idle := 0
+	for {
+		k, err := r.ReadValues(buf)
+		out = append(out, buf[:k]...)
+		if err == io.EOF {
+			return out, nil
+		}
+		if err != nil {
+			return out, err
+		}
+		if k == 0 {
+			if idle++; idle > 3 {
+				return out, fmt.Errorf("ReadValues returned 0 values and no error repeatedly")
+			}
+		} else {
+			idle = 0
+		}
+	}
+}
+
+// readColumnwise reads the n rows of a row group through its column chunks
+func readColumnwise(schema *parquet.Schema, rg parquet.RowGroup, n int) ([]parquet.Row, error) {
+	chunks := rg.ColumnChunks()
+	paths := schema.Columns()
+	if len(chunks) != len(paths) {
+		return nil, fmt.Errorf("%d column chunks for %d columns", len(chunks), len(paths))
+	}
+	out := make([]parquet.Row, n)
+	for j, cc := range chunks {
+		leaf, _ := schema.Lookup(paths[j]...)
+		pages := cc.Pages()
+		page, err := pages.ReadPage()
+		if err != nil {
+			pages.Close()
+			return nil, fmt.Errorf("column %d: ReadPage: %v", j, err)
+		}
+		if page.NumRows() != int64(n) {
+			pages.Close()
+			return nil, fmt.Errorf("column %d: the page has %d rows, %d were written", j, page.NumRows(), n)
+		}
+		var vals []parquet.Value
+		h := int64(n / 2)
+		for part, pg := range []parquet.Page{page.Slice(0, h), page.Slice(h, int64(n))} {
+			what := fmt.Sprintf("column %d, Slice(%d,%d) of the page", j, int64(part)*h, h+int64(part)*(int64(n)-h))
+			if (j+part)%2 == 1 {
+				if cl, ok := pg.(interface{ Clone() parquet.Page }); ok {
+					pg, what = cl.Clone(), what+", cloned"
+				}
+			}
+			vs, err := readValues(pg.Values(), 1+(j+part)%3)
+			if err != nil {
+				pages.Close()
+				return nil, fmt.Errorf("%s: ReadValues: %v", what, err)
+			}
+			// the level arrays of the part are the levels of its values
+			var rl, dl []byte
+			for _, v := range vs {
+				rl = append(rl, byte(v.RepetitionLevel()))
+				dl = append(dl, byte(v.DefinitionLevel()))
+			}
+			if leaf.MaxRepetitionLevel > 0 && !bytes.Equal(pg.RepetitionLevels(), rl) {
+				pages.Close()
+				return nil, fmt.Errorf("%s: RepetitionLevels() = %v, the values have %v", what, pg.RepetitionLevels(), rl)
+			}
+			if leaf.MaxDefinitionLevel > 0 && !bytes.Equal(pg.DefinitionLevels(), dl) {
+				pages.Close()
+				return nil, fmt.Errorf("%s: DefinitionLevels() = %v, the values have %v", what, pg.DefinitionLevels(), dl)
+			}
+			vals = append(vals, vs...)
+		}
+		pages.Close()
+		i := -1
+		for _, v := range vals {
+			if v.RepetitionLevel() == 0 {
+				i++
+			}
+			if i < 0 || i >= n {
+				return nil, fmt.Errorf("column %d: the values do not form %d rows (%d values)", j, n, len(vals))
+			}
+			out[i] = append(out[i], v)
+		}
+		if i != n-1 {
+			return nil, fmt.Errorf("column %d: the values form %d rows, %d were written", j, i+1, n)
+		}
+	}
+	return out, nil
 }
 
 // ---------------------------------------------------------------------------
@@ -1331,6 +1454,17 @@ type caseReplay struct {
 	Note  string          `json:"note,omitempty"`
 }
 
+// rowJSON renders one row (a pointer to it) like the replays do
+func rowJSON(ct *cat, row any) string {
+	var b []byte
+	if ct.dyn {
+		b, _ = json.Marshal(encDyn(reflect.ValueOf(row).Elem()))
+	} else {
+		b, _ = json.Marshal(row)
+	}
+	return core.Trunc(string(b), 500)
+}
+
 func mkReplay(ct *cat, rows reflect.Value, split []int) caseReplay {
 	var b []byte
 	if ct.dyn {
@@ -1568,17 +1702,29 @@ func checkCase(c *core.Ctx, ct *cat, rows reflect.Value, split []int, wantVm boo
 	n := rows.Len()
 	// the reuse regime (reuse.go) runs beside the fresh-memory matrix: it has
 	// its own copies of the rows in its own backing stores
+	// pristine: a deep copy of the batch that is never handed to the library.
+	// The model values, the replay and the reuse regime are taken from it, and
+	// every path's effect on the batch it was given is compared with it.
+	pristine := deepCopy(rows)
 	var reuseCh chan [numReuse]pathResult
 	if withReuse {
 		reuseCh = make(chan [numReuse]pathResult, 1)
-		go func() { reuseCh <- ct.execR(rows, split) }()
+		go func() { reuseCh <- ct.execR(pristine, split) }()
 	}
-	res := ct.exec(rows, split)
+	res := ct.exec(rows, pristine, split)
+	rows = pristine
 	replay := func() any { return mkReplay(ct, rows, split) }
 	ok := true
 	for p, r := range res {
 		if r.err != "" && !r.skipped {
 			report(c, "path-error:"+ct.name, fmt.Sprintf("type %s, %d rows: path %s failed: %s", ct.name, n, pathNames[p], r.err), replay())
+			ok = false
+		}
+	}
+	// predicate 0: a path reads the values it is given, it does not write into them
+	for p, r := range res {
+		if ok && r.mutated != "" {
+			report(c, "input-mutated:"+ct.name, fmt.Sprintf("type %s, %d rows: path %s wrote into the caller's values: %s", ct.name, n, pathNames[p], r.mutated), replay())
 			ok = false
 		}
 	}
@@ -2192,8 +2338,12 @@ func (g *gen) fillN(n parquet.Node, v reflect.Value, path string) {
 			switch {
 			case v.Type() == reflect.TypeOf(json.RawMessage(nil)):
 				b = []byte(genJSON[g.rng.Intn(len(genJSON))])
-				if _, ok := logicalOf(n).(*format.JsonType); !ok && b[0] == '"' {
-					b = []byte(`{"s":"x"}`) // a JSON string in a column without the json tag: known finding rawmessage-untagged-string
+				_, tagged := logicalOf(n).(*format.JsonType)
+				if !tagged && (b[0] == '"' || string(b) == "null") {
+					b = []byte(`{"s":"x"}`) // a JSON string / null in a column without the json tag: known finding rawmessage-untagged-string
+				}
+				if tagged && n.Optional() && string(b) == "null" {
+					b = []byte(`[null]`) // the text null in an optional json column: known finding rawmessage-json-null-typed
 				}
 			case n != nil && n.Leaf() && n.Type().Kind() == parquet.FixedLenByteArray:
 				b = make([]byte, n.Type().Length())
@@ -2325,7 +2475,7 @@ func (g *gen) fillN(n parquet.Node, v reflect.Value, path string) {
 }
 
 var genNumbers = []string{"0", "1", "-1", "1.5", "1e3", "123456789012", "-0.25"}
-var genJSON = []string{`{"a":1}`, `[1,2,3]`, `"s"`, `1.5`, `true`, `{"k":{"n":null}}`, `{}`, `[]`, `0`, `""`}
+var genJSON = []string{`{"a":1}`, `[1,2,3]`, `"s"`, `1.5`, `true`, `{"k":{"n":null}}`, `{}`, `[]`, `0`, `""`, `null`}
 
 // anyFor generates the dynamic value of an interface-typed field for node n
 // (invalid = nil interface); elem: the value is one element of the repeated n
@@ -2604,7 +2754,7 @@ func randSplit(rng *rand.Rand, n int) []int {
 // ---------------------------------------------------------------------------
 
 func runC03(c *core.Ctx) {
-	c.Res.Rule = "catalogue of 129 entries = 88 compiled struct types under SchemaOf(T) or one or more explicit schemas: (1) required / `optional` scalars of every kind, pointers, repeated and LIST slices, nested lists, slices and maps of structs, embedded and nested structs, optional groups with repeated fields and vice versa, 3 levels of nesting; (2) every struct tag option of schema.go makeNodeOf: int(n)/uint(n) narrower, equal, wider and of the other signedness than the Go type, uintptr, decimal on int32/int64/[n]byte/[]byte, date/timestamp(unit[:utc|local])/time(unit) on integers, time.Time, time.Duration and their pointers, uuid on [16]byte/string, enum, string, bytes, interval on [12]byte/parquet.Interval, geometry, geography, json on strings / byte slices / structs / maps / slices / numbers / map[string]any, json.RawMessage, json.Number, variant, delta/split/dict/plain and per-field codecs, `-`, `-,`, renamed and unexported fields (holding data), id(n), `optional` on every Go kind, parquet-key/parquet-value/parquet-element tags, byte arrays of 12 sizes, *map, []*struct, maps of lists / maps / structs, lists of >1024 elements; (3) `any` fields written with an explicit schema node (leaf of each physical type required/optional/repeated/LIST/optional LIST of optional; variant; map[string]any to required/optional groups; []any and []map[string]any to repeated groups and LISTs) at top level and below optional groups, repeated groups and LISTs, []any / map[string]any / map[string]string typed fields; (4) T with an explicit schema equal to SchemaOf(T), with the fields sorted (top level / every depth), optional<->required flipped, LIST<->repeated flipped, other physical / logical types. Values are generated along the schema: every nullable site (pointer, zero-able scalar, slice, map, interface) follows, inverts or ignores a per-row (and per-element) run pattern with runs of 1..130 crossing 64-row words; batch sizes 1..200 plus one single Write call of 513..1300 rows per type (quick tier: every other type, alternating with the seed); each batch goes through the fourteen ingestion paths (whole batch or split into several Write calls; the typed and the reflection buffer additionally with the rows reversed through Swap before reading), and every case a second time from REUSED CALLER MEMORY: thirteen entry points (the eleven Write / WriteRows / WriteRowValues paths of the matrix plus RowBuffer[T].WriteRows and Buffer.WriteRows of rows deconstructed from the store) are each fed, with the same calls, from one reused backing store (the same []T / []*T / []any / []Row / []Value, the same byte regions behind byte slices and strings, arrays inline, pooled nested slices, maps and pointer targets refilled in place) that is overwritten with a poison pattern as soon as each call has returned and before the next batch is laid out over it, the rows handed to WriteRows / WriteRowValues included; predicate: identical (column, value, r, d) sequences per row on every path, the streams stored from reused (and since overwritten) caller memory exactly those of the same path on fresh memory, Reconstruct(Deconstruct(v)) = v up to nil/empty where Reconstruct is lossless; correspondence: Deconstruct streams = model shred_rows (= model shred_batch) on the harness' Go-value -> model-value mapping, model asm of the streams = the value. Plus a regression batch per repaired defect, five known findings pinned on fixed inputs, and the null-run sweep: single-word patterns with <= 3 runs at every in-word offset through the typed path on optional fields of every null-index kernel, compared with the pattern and with the model's scan. A case = (type, batch, split); non-trivial = at least 2 rows; distinct by type + JSON of the batch."
+	c.Res.Rule = "catalogue of 129 entries = 88 compiled struct types under SchemaOf(T) or one or more explicit schemas: (1) required / `optional` scalars of every kind, pointers, repeated and LIST slices, nested lists, slices and maps of structs, embedded and nested structs, optional groups with repeated fields and vice versa, 3 levels of nesting; (2) every struct tag option of schema.go makeNodeOf: int(n)/uint(n) narrower, equal, wider and of the other signedness than the Go type, uintptr, decimal on int32/int64/[n]byte/[]byte, date/timestamp(unit[:utc|local])/time(unit) on integers, time.Time, time.Duration and their pointers, uuid on [16]byte/string, enum, string, bytes, interval on [12]byte/parquet.Interval, geometry, geography, json on strings / byte slices / structs / maps / slices / numbers / map[string]any, json.RawMessage, json.Number, variant, delta/split/dict/plain and per-field codecs, `-`, `-,`, renamed and unexported fields (holding data), id(n), `optional` on every Go kind, parquet-key/parquet-value/parquet-element tags, byte arrays of 12 sizes, *map, []*struct, maps of lists / maps / structs, lists of >1024 elements; (3) `any` fields written with an explicit schema node (leaf of each physical type required/optional/repeated/LIST/optional LIST of optional; variant; map[string]any to required/optional groups; []any and []map[string]any to repeated groups and LISTs) at top level and below optional groups, repeated groups and LISTs, []any / map[string]any / map[string]string typed fields; (4) T with an explicit schema equal to SchemaOf(T), with the fields sorted (top level / every depth), optional<->required flipped, LIST<->repeated flipped, other physical / logical types. Values are generated along the schema: every nullable site (pointer, zero-able scalar, slice, map, interface) follows, inverts or ignores a per-row (and per-element) run pattern with runs of 1..130 crossing 64-row words; batch sizes 1..200 plus one single Write call of 513..1300 rows per type (quick tier: every other type, alternating with the seed); each batch goes through the fourteen ingestion paths (whole batch or split into several Write calls; the typed and the reflection buffer additionally with the rows reversed through Swap before reading; the RowBuffer additionally read column by column: the page of each column chunk cut in two with Slice, every other part cloned, read 1, 2 or 3 values at a time, its level arrays compared with the levels of its values), and every case a second time from REUSED CALLER MEMORY: thirteen entry points (the eleven Write / WriteRows / WriteRowValues paths of the matrix plus RowBuffer[T].WriteRows and Buffer.WriteRows of rows deconstructed from the store) are each fed, with the same calls, from one reused backing store (the same []T / []*T / []any / []Row / []Value, the same byte regions behind byte slices and strings, arrays inline, pooled nested slices, maps and pointer targets refilled in place) that is overwritten with a poison pattern as soon as each call has returned and before the next batch is laid out over it, the rows handed to WriteRows / WriteRowValues included; predicate: identical (column, value, r, d) sequences per row on every path, the streams stored from reused (and since overwritten) caller memory exactly those of the same path on fresh memory, Reconstruct(Deconstruct(v)) = v up to nil/empty where Reconstruct is lossless; correspondence: Deconstruct streams = model shred_rows (= model shred_batch) on the harness' Go-value -> model-value mapping, model asm of the streams = the value. Plus a regression batch per repaired defect, six known findings pinned on fixed inputs, and the null-run sweep: single-word patterns with <= 3 runs at every in-word offset through the typed path on optional fields of every null-index kernel, compared with the pattern and with the model's scan. A case = (type, batch, split); non-trivial = at least 2 rows; distinct by type + JSON of the batch."
 	t0 := time.Now()
 	debug.SetGCPercent(400)                    // the writers allocate their page buffers anew for every case
 	if pf := os.Getenv("C03_PROF"); pf != "" { // debugging aid
